@@ -42,6 +42,22 @@ def main(argv):
         r = replay.cli_vs_api(fs)
         if not r['agree']:
             fails.append({'scenario': 'cli vs api', 'flags': fs, 'cli_rc': r['cli_rc'], 'cli_out': r['cli_out'][:200], 'expected': (r['expected'] or '')[:200]})
+    # preserve lists: every name is bound both at module level and in a function, so a name that leaks from one list into the other
+    # (or is dropped from its own) changes the output; one, the other and both options, comma-separated and repeated spellings
+    psrc = ('name_a=1;name_b=2;name_c=3\ndef f():\n    name_a=4;name_b=5;name_c=6\n    return name_a+name_a+name_b+name_b+name_c+name_c\n'
+            'print(name_a,name_a,name_b,name_b,name_c,name_c,f())\n')
+    for pres in ({'preserve_globals': ['name_a']}, {'preserve_locals': ['name_b']},
+                 {'preserve_globals': ['name_a'], 'preserve_locals': ['name_b']},
+                 {'preserve_locals': ['name_a'], 'preserve_globals': ['name_b']},
+                 {'preserve_globals': ['name_a,name_c'], 'preserve_locals': ['name_b']},
+                 {'preserve_globals': ['name_a', ' name_c ,'], 'preserve_locals': ['name_b', 'name_b']},
+                 {'preserve_globals': [','], 'preserve_locals': ['name_c']}):
+        for fs in (['--rename-globals'], []):
+            cases += 1
+            r = replay.cli_vs_api(fs, psrc, pres)
+            if not r['agree']:
+                fails.append({'scenario': 'cli vs api (preserve lists)', 'flags': r['flags'], 'cli_rc': r['cli_rc'], 'cli_out': r['cli_out'][:200],
+                              'expected': (r['expected'] or '')[:200]})
     print(json.dumps({'cases': cases, 'failures': fails[:30], 'n_failures': len(fails)}))
 
 
